@@ -989,7 +989,11 @@ class Emitter:
             if name.startswith('llvm.'):
                 continue
             if f.isdef and name not in self.overrides:
-                fdefs.append(self.emit_func(f))
+                if any(rx.search(name) for rx in self.opts.get('traps', [])):
+                    fdefs.append(self.emit_trap(f))
+                    self.trapped.append(name)
+                else:
+                    fdefs.append(self.emit_func(f))
         for name in m.gorder:
             g = m.globals[name]
             ct = self.ctype(g['type'])
@@ -1118,6 +1122,18 @@ class Emitter:
             return '((%s){0})' % self.ctype(t)
         return '((%s)0)' % self.ctype(t)
 
+    trapped = []
+    def emit_trap(self, f):
+        ps = ['%s a%d' % (self.ctype(t), i) for i, (t, n, a) in enumerate(f.params)]
+        if f.vararg and ps:
+            ps.append('...')
+        if not ps:
+            ps = ['void']
+        body = '  VP_ASSERT(0, "trap: %s reached (declared unreachable by the harness)");\n  VP_ASSUME(0);\n' % f.name[:60]
+        if f.ret[0] != 'void':
+            body += '  return %s;\n' % self.zero(f.ret)
+        return '%s %s(%s) {\n%s}' % (self.ctype(f.ret), self.fname(f.name), ', '.join(ps), body)
+
     # ---- function body
     def emit_func(self, f):
         F = FuncEmitter(self, f)
@@ -1192,6 +1208,7 @@ class FuncEmitter:
         self.code = []
         self.tmpn = 0
         self.bitcast_src = {}   # local -> (srctype, srcname) for look-through of i8* casts
+        self.zext64 = {}        # local i128 defined as zext of an i64 value -> C expr of that value
         self.blocks = []
 
     def lname(self, n):
@@ -1563,7 +1580,13 @@ class FuncEmitter:
                 if 'nuw' in fl:
                     c.append('VP_UB(!VP_U%s_OVF(%d, %s, %s), "UB: unsigned overflow in %s nuw");' % (op.upper(), w, a, b, op))
             pt = E.uprom(w)
-            c.append('%s = %s;' % (D, E.mask(w, '(%s)%s %s (%s)%s' % (pt, a, BINOPS[op], pt, b))))
+            if op == 'mul' and w == 64 and I['a'][0] == 'local' and I['b'][0] == 'local':
+                c.append('%s = (uint64_t)vp_mul64x64(%s, %s);' % (D, a, b))
+            elif op == 'mul' and w == 128 and I['a'][0] == 'local' and I['b'][0] == 'local' \
+                    and I['a'][1] in self.zext64 and I['b'][1] in self.zext64:
+                c.append('%s = vp_mul64x64(%s, %s);' % (D, self.zext64[I['a'][1]], self.zext64[I['b'][1]]))
+            else:
+                c.append('%s = %s;' % (D, E.mask(w, '(%s)%s %s (%s)%s' % (pt, a, BINOPS[op], pt, b))))
         elif op in ('shl', 'lshr', 'ashr'):
             t = I['t']
             w = E.resolve(t)[1]
@@ -1582,7 +1605,9 @@ class FuncEmitter:
             a, b = self.val(t, I['a']), self.val(t, I['b'])
             c.append('VP_UB(%s != 0, "UB: division by zero");' % b)
             cop = '/' if op.endswith('div') else '%'
-            if op[0] == 'u':
+            if op[0] == 'u' and w == 64 and I['a'][0] == 'local' and I['b'][0] == 'local':
+                c.append('%s = vp_%s64(%s, %s);' % (D, op, a, b))
+            elif op[0] == 'u':
                 pt = E.uprom(w)
                 c.append('%s = %s;' % (D, E.mask(w, '(%s)%s %s (%s)%s' % (pt, a, cop, pt, b))))
             else:
@@ -1594,6 +1619,8 @@ class FuncEmitter:
         elif op in ('zext', 'trunc'):
             w2 = E.resolve(I['rtype'])[1]
             c.append('%s = %s;' % (D, E.mask(w2, self.val(I['t'], I['a']))))
+            if op == 'zext' and w2 == 128 and E.resolve(I['t'])[1] == 64:
+                self.zext64[d] = self.val(I['t'], I['a'])
         elif op == 'sext':
             w = E.resolve(I['t'])[1]
             w2 = E.resolve(I['rtype'])[1]
@@ -1892,6 +1919,14 @@ class FuncEmitter:
             c.append('vp_%s(%s, %s, %s);' % (kind, av(0), av(1), av(2)))
             return
         if kind == 'memset':
+            n = a[2][1]
+            et = self.elem_type_behind(a[0][1])
+            if et is not None and a[1][1] == ('int', 0) and n[0] == 'int' and E.resolve(et)[0] in ('struct', 'arr', 'int', 'ptr') \
+               and E.sizeof(et) > 0 and n[1] % E.sizeof(et) == 0 and n[1] // E.sizeof(et) <= 16:
+                ct = E.ctype(et)
+                for j in range(n[1] // E.sizeof(et)):
+                    c.append('((%s*)%s)[%d] = %s;' % (ct, av(0), j, E.zero(et)))
+                return
             c.append('vp_memset(%s, %s, %s);' % (av(0), av(1), av(2)))
             return
         if kind in ('umul', 'uadd', 'usub', 'smul', 'sadd', 'ssub') and base[2] == 'with':
@@ -1901,7 +1936,13 @@ class FuncEmitter:
             x, y = av(0), av(1)
             opn = kind[1:]
             cop = {'mul': '*', 'add': '+', 'sub': '-'}[opn]
-            if kind[0] == 'u':
+            if kind == 'umul' and w == 64:
+                # one 64x64->128 product serves both the low word and the overflow flag
+                t = self.tmp('vp_u128')
+                c.append('%s = vp_mul64x64(%s, %s);' % (t, x, y))
+                c.append('%s.f0 = (uint64_t)%s;' % (D, t))
+                c.append('%s.f1 = (%s >> 64) != 0;' % (D, t))
+            elif kind[0] == 'u':
                 c.append('%s.f0 = %s;' % (D, E.mask(w, '(%s)%s %s (%s)%s' % (E.uprom(w), x, cop, E.uprom(w), y))))
                 c.append('%s.f1 = VP_U%s_OVF(%d, %s, %s);' % (D, opn.upper(), w, x, y))
             else:
@@ -1984,11 +2025,13 @@ def translate(text, opts):
     E.dispatch_needed = {}
     E.pending_structs = []
     E.addr_taken = scan_addr_taken(mod, text)
+    E.trapped = []
     src = E.emit()
     info = dict(
         functions=[n for n in mod.forder if mod.funcs[n].isdef and n not in E.overrides and not n.startswith('llvm.')],
         externals=sorted(E.used_externals),
         addr_taken=sorted(E.addr_taken),
+        trapped=E.trapped,
     )
     return src, info
 
@@ -2002,6 +2045,7 @@ def main():
     ap.add_argument('--no-erase-sigs', action='store_true')
     ap.add_argument('--info')
     ap.add_argument('--candidate', action='append', default=[])
+    ap.add_argument('--trap', action='append', default=[])
     a = ap.parse_args()
     ov = list(a.override)
     if a.override_file:
@@ -2012,7 +2056,8 @@ def main():
         for c in a.candidate:
             n, r, ps = c.split(':')
             cands.append((n, r, [x for x in ps.split(',') if x]))
-        src, info = translate(text, dict(override=ov, erase_sigs=not a.no_erase_sigs, candidates=cands))
+        src, info = translate(text, dict(override=ov, erase_sigs=not a.no_erase_sigs, candidates=cands,
+                                         traps=[re.compile(x) for x in a.trap]))
     except Unsupported as e:
         sys.stderr.write("ll2c: UNSUPPORTED: %s\n" % e)
         sys.exit(3)
